@@ -182,11 +182,8 @@ func TestSim(t *testing.T) {
 		for _, tp := range simrt.Panics {
 			origin := panicOrigin(tp.Stack)
 			if strings.Contains(origin, "valyala/fasthttp") || strings.Contains(origin, "valyala/bytebufferpool") {
-				fn := origin[strings.LastIndex(origin, "/")+1:]
-				if i := strings.Index(fn, "("); i > 0 && !strings.HasPrefix(fn, "fasthttp.(") {
-					fn = fn[:i]
-				}
-				e.Violation("panic/"+strings.TrimSuffix(strings.Split(fn, "(0x")[0], "(...)"), "a fasthttp goroutine (%s) panicked: %s; origin %s\n%s", tp.Site, tp.Value, origin, clip(tp.Stack, 1800))
+				fn := frameFunc(origin)
+				e.Violation("panic/"+fn, "a fasthttp goroutine (%s) panicked: %s; origin %s\n%s", tp.Site, tp.Value, origin, clip(tp.Stack, 1800))
 			} else if e.harnessPanic == "" {
 				e.harnessPanic = fmt.Sprintf("task %s (%s): %s\n%s", tp.Task, tp.Site, tp.Value, tp.Stack)
 			}
